@@ -368,13 +368,27 @@ func genLeaf(r *Rng, ids []string, kinds map[string]int) (query.Query, string) {
 		return q, anyOfTok(f, acc)
 	case 8:
 		kinds["fuzzy"]++
-		t := []string{"ab", "abc", "bab", "ca", "abdd", "z"}[r.Intn(6)]
+		t := []string{"ab", "abc", "bab", "ca", "abdd", "z", "abcabd"}[r.Intn(7)]
 		fz := 1 + r.Intn(2)
 		pl := r.Intn(2)
 		q := bleve.NewFuzzyQuery(t)
 		q.SetField(f)
 		q.SetFuzziness(fz)
 		q.SetPrefix(pl)
+		if r.Chance(30) {
+			// automatic fuzziness: the edit distance follows from the length of the term (0 up to two
+			// characters, 1 up to five, 2 above) whatever number is also set
+			kinds["fuzzy-auto"]++
+			q.SetAutoFuzziness(true)
+			switch {
+			case len(t) > 5:
+				fz = 2
+			case len(t) > 2:
+				fz = 1
+			default:
+				fz = 0
+			}
+		}
 		// the documentation says Levenshtein distance; scorch's automaton also counts an adjacent
 		// transposition as one edit: both term sets travel in the token (see resolveFuzzy)
 		var lev, osa []string
@@ -497,6 +511,29 @@ func genLeaf(r *Rng, ids []string, kinds map[string]int) (query.Query, string) {
 		kinds["match_none"]++
 		return bleve.NewMatchNoneQuery(), "Z"
 	}
+}
+
+// hot shape: a doc-id query listing many ids of the id space, live ones, deleted ones and ones that
+// never existed, in any order: the doc-id readers walk the sorted list against the index and have to
+// step over the listed ids that are absent
+func genDocIDs(r *Rng, ids []string, kinds map[string]int) (query.Query, string) {
+	kinds["doc_id-many"]++
+	n := 3 + r.Intn(6)
+	sel := make([]string, n)
+	var sb strings.Builder
+	fmt.Fprintf(&sb, "I %d", n)
+	for i := range sel {
+		switch {
+		case r.Chance(25):
+			sel[i] = fmt.Sprintf("d%03d", r.Intn(len(ids)+3)) // may be deleted or beyond the id space
+		case r.Chance(10):
+			sel[i] = ids[r.Intn(len(ids))] + "x" // sorts between two ids, never existed
+		default:
+			sel[i] = ids[r.Intn(len(ids))]
+		}
+		sb.WriteString(" " + hs(sel[i]))
+	}
+	return bleve.NewDocIDQuery(sel), sb.String()
 }
 
 // hot shape: must + should made of plain term clauses (or small conjunctions) with a minimum: the
@@ -809,6 +846,8 @@ func runC02(t *Trace, r *Rng, tier string, _ []string) {
 			q, ftok := genQuery(r, 3, ci.ids, kinds)
 			if engine == "scorch-disk" && r.Chance(25) {
 				q, ftok = genConjOfTerms(r, kinds)
+			} else if r.Chance(6) {
+				q, ftok = genDocIDs(r, ci.ids, kinds)
 			}
 			// scorch is compared with the transposition-aware reading of fuzziness (what its automaton
 			// implements), and additionally with the documented one where the two differ
@@ -823,7 +862,13 @@ func runC02(t *Trace, r *Rng, tier string, _ []string) {
 				case "loc+explain":
 					req.IncludeLocations = true
 				}
-				sr, err := ci.idx.Search(req)
+				sr, err := guardedSearch(ci.idx, req)
+				if err == errHang {
+					t.Emit("search/"+engine+"/"+opt, true, op, "HANG")
+					t.Note("a search did not return within 20 s; run stopped early")
+					t.Close()
+					os.Exit(0)
+				}
 				if c02Dump {
 					qj, _ := json.Marshal(q)
 					c02Dbg("  SEARCH %s %s -> %v", opt, qj, sr)
@@ -878,6 +923,45 @@ func runC02(t *Trace, r *Rng, tier string, _ []string) {
 }
 
 // ---------- C08: Next / Advance programs on the searchers a query builds ----------
+
+var errHang = fmt.Errorf("call did not return")
+
+func guardedSearch(idx bleve.Index, req *bleve.SearchRequest) (*bleve.SearchResult, error) {
+	type res struct {
+		sr  *bleve.SearchResult
+		err error
+	}
+	ch := make(chan res, 1)
+	go func() {
+		sr, err := idx.Search(req)
+		ch <- res{sr, err}
+	}()
+	select {
+	case r := <-ch:
+		return r.sr, r.err
+	case <-time.After(20 * time.Second):
+		return nil, errHang
+	}
+}
+
+// run a searcher call with a watchdog: a searcher that loops forever must not hang the check
+func guardedCall(f func() (*search.DocumentMatch, error)) (*search.DocumentMatch, error) {
+	type res struct {
+		dm  *search.DocumentMatch
+		err error
+	}
+	ch := make(chan res, 1)
+	go func() {
+		dm, err := f()
+		ch <- res{dm, err}
+	}()
+	select {
+	case r := <-ch:
+		return r.dm, r.err
+	case <-time.After(10 * time.Second):
+		return nil, errHang
+	}
+}
 
 func iidOf(engine string, id index.IndexInternalID) uint64 {
 	if engine == "scorch" {
@@ -940,7 +1024,11 @@ func runC08(t *Trace, r *Rng, tier string, _ []string) {
 			q, ftok := genQuery(r, 3, ci.ids, kinds)
 			hotRoot := r.Chance(35)
 			if hotRoot {
-				q, ftok = genBoolTermsMinShould(r, kinds)
+				if r.Chance(70) {
+					q, ftok = genBoolTermsMinShould(r, kinds)
+				} else {
+					q, ftok = genDocIDs(r, ci.ids, kinds)
+				}
 			}
 			tok, _ := resolveFuzzy(ftok, engine == "scorch")
 			for _, opt := range []search.SearcherOptions{{}, {Score: "none"}, {IncludeTermVectors: true, Explain: true}} {
@@ -963,7 +1051,7 @@ func runC08(t *Trace, r *Rng, tier string, _ []string) {
 					firstAdv := hotRoot && c == 0 && r.Chance(70)
 					if !firstAdv && r.Chance(55) {
 						calls = append(calls, "N")
-						dm, err = s.Next(sctx)
+						dm, err = guardedCall(func() (*search.DocumentMatch, error) { return s.Next(sctx) })
 					} else {
 						// forward target: beyond the last returned id
 						lo := uint64(last + 1)
@@ -988,7 +1076,17 @@ func runC08(t *Trace, r *Rng, tier string, _ []string) {
 							advFirst++
 						}
 						calls = append(calls, fmt.Sprintf("A %d", tg))
-						dm, err = s.Advance(sctx, mkIID(engine, tg))
+						target := mkIID(engine, tg)
+						dm, err = guardedCall(func() (*search.DocumentMatch, error) { return s.Advance(sctx, target) })
+					}
+					if err == errHang {
+						// the call did not return: report it with the program so far and stop the run (the
+						// goroutine cannot be stopped; what has been recorded is the evidence)
+						outs = append(outs, "HANG")
+						t.Emit("prog/"+engine, true, "prog "+corpus+" | "+tok+" | "+strings.Join(calls[:len(outs)], " "), strings.Join(outs, ","))
+						t.Note("a searcher call did not return within 10 s; run stopped early")
+						t.Close()
+						os.Exit(0)
 					}
 					if err != nil {
 						outs = append(outs, "ERR")
